@@ -66,6 +66,8 @@ def oracle_verdicts(part, cases, impl, shards=C.NPROC):
     res = C.run_oracle(part.engine, cases, impl, shards=shards) if part.has_oracle else ["1"] * len(cases)
     if hasattr(part, "py_oracle"):
         res = [r if not r.startswith("1") else part.py_oracle(c, a) for r, c, a in zip(res, cases, impl)]
+    if hasattr(part, "batch_oracle"):
+        res = part.batch_oracle(cases, impl, res)
     return res
 
 
